@@ -431,6 +431,8 @@ def typing_model(role_of):
         return TV(x.trans, x.deg, False, nonneg=x.nonneg)
     m.ext["np.average"] = average
     m.ext["np.arange"] = lambda it, *a, **k: TV("INV", 0, True, "idx")
+    # pairs of elements of a typed array: each member has the element's type (three representative pairs)
+    m.ext["itertools.combinations"] = lambda it, x, r=2, *a, **k: [tuple(TV.of(x).el() for _ in range(r))] * 3 if isinstance(x, TV) and isinstance(r, int) else (_ for _ in ()).throw(Undecided("itertools.combinations of a non-array"))
     m.ext["np.triu_indices"] = lambda it, *a, **k: (TV("INV", 0, True, "idx"), TV("INV", 0, True, "idx"))
     m.ext["np.tril_indices"] = m.ext["np.triu_indices"]
     m.ext["np.sum"] = lambda it, x, *a, **k: TV.of(x).sum()
@@ -571,6 +573,20 @@ class Arr:
 
     def abs_iter(self):
         return list(self.v)
+
+    @property
+    def dtype(self):
+        from .absmodel import DType
+        vals = [x for x in self.v if x is not None]
+        if vals and all(isinstance(x, bool) for x in vals):
+            return DType("bool")
+        if vals and all(isinstance(x, int) and not isinstance(x, bool) for x in vals):
+            return DType("int")
+        return DType("float")
+
+    @property
+    def size(self):
+        return len(self.v)
 
     def _zip(self, other):
         if isinstance(other, Arr):
@@ -768,6 +784,11 @@ def const_model():
         pairs = [(i, j) for i in range(n) for j in range(n) if j - i >= k]
         return (Arr(i for i, _ in pairs), Arr(j for _, j in pairs))
     m.ext["np.triu_indices"] = triu
+
+    def combinations(it, x, r=2):
+        import itertools
+        return [tuple(c) for c in itertools.combinations(x.v if isinstance(x, Arr) else list(it.iterate(x)), r)]
+    m.ext["itertools.combinations"] = combinations
 
     def np_sqrt(it, x):
         return Arr(f_sqrt(T(e)) for e in x.v) if isinstance(x, Arr) else f_sqrt(T(x))
